@@ -10,3 +10,6 @@ const Enabled = false
 
 // At marks an instrumentation point. No-op without the verif build tag.
 func At(point string, kv ...any) {}
+
+// ID returns an opaque identity for x (empty without the verif build tag).
+func ID(x any) string { return "" }
